@@ -864,6 +864,30 @@ func tokeniseBytes(b []byte) []int {
 type berRunner struct {
 	w   *bufio.Writer
 	seq int
+	// held: octet strings returned by the most recent marshal calls, kept as a caller would keep them, each with a private
+	// copy taken at once; every later call is followed by a comparison (an encoder that recycles its output buffers
+	// changes a result after it has been handed out)
+	held [][2][]byte
+}
+
+// heldIntact reports whether every held result still reads as it did when it was returned, then holds out.
+func (r *berRunner) heldIntact(out []byte) bool {
+	ok := true
+	for _, h := range r.held {
+		if !bytes.Equal(h[0], h[1]) {
+			ok = false
+		}
+	}
+	if out != nil {
+		r.held = append(r.held, [2][]byte{out, append([]byte(nil), out...)})
+		if len(r.held) > 8 {
+			r.held = r.held[1:]
+		}
+	}
+	if !ok {
+		r.held = nil // reported once
+	}
+	return ok
 }
 
 func (r *berRunner) emit(v any) {
@@ -878,7 +902,7 @@ func (r *berRunner) roundTrip(c BerCase, ptr reflect.Value, params string) []byt
 	pat := 0
 	top := parseBerTag(params)
 	rec := Node{"trace": c.ID, "seq": r.seq, "action": "marshal", "mode": c.Mode, "type": c.Type, "params": params,
-		"enc": "", "dec": "", "bytes": []int{}, "node": nodeOf(ptr.Elem(), top, &pat), "back": Node{"k": "none"}, "deq": false}
+		"enc": "", "dec": "", "bytes": []int{}, "node": nodeOf(ptr.Elem(), top, &pat), "back": Node{"k": "none"}, "deq": false, "held": true}
 	var out []byte
 	var err error
 	if e := guarded(20*time.Second, func() { out, err = asn.BerMarshalWithParams(ptr.Interface(), params) }); e != "" {
@@ -887,7 +911,7 @@ func (r *berRunner) roundTrip(c BerCase, ptr reflect.Value, params string) []byt
 		rec["enc"] = "error"
 	}
 	if rec["enc"] == "" {
-		rec["bytes"] = tokeniseKnown(out, rec["node"].(Node))
+		rec["bytes"] = tokeniseKnown(append([]byte(nil), out...), rec["node"].(Node))
 		back := reflect.New(ptr.Type().Elem())
 		var derr error
 		if e := guarded(20*time.Second, func() { derr = asn.UnmarshalWithParams(out, back.Interface(), params) }); e != "" {
@@ -899,6 +923,11 @@ func (r *berRunner) roundTrip(c BerCase, ptr reflect.Value, params string) []byt
 			rec["back"] = nodeOf(back.Elem(), top, &p2)
 			rec["deq"] = equalModuloNilEmpty(ptr.Elem(), back.Elem())
 		}
+	}
+	if rec["enc"] == "" {
+		rec["held"] = r.heldIntact(out)
+	} else {
+		rec["held"] = r.heldIntact(nil)
 	}
 	r.emit(rec)
 	if rec["enc"] == "" {
